@@ -2,7 +2,9 @@ package main
 
 import (
 	"encoding/json"
+	"errors"
 	"fmt"
+	"io"
 	"math/rand"
 	"os"
 	"path/filepath"
@@ -31,6 +33,12 @@ type c18Op struct {
 	// Clone (add): the document added is a Clone() of the one served under Name at that moment (when there is
 	// one; Doc otherwise): equal content, another instance
 	Clone bool `json:"clone,omitempty"`
+	// Same (add): the document added is the very INSTANCE served under the name Same at that moment (when there is
+	// one; Doc otherwise) - one object registered under two names, or re-added under its own name
+	Same string `json:"same,omitempty"`
+	// FailAt (reader, Doc != nil): the reader hands out FailAt permille of the (well-formed) text and then reports an
+	// I/O error: bad input, like a malformed text
+	FailAt *int `json:"failAt,omitempty"`
 }
 
 type c18Case struct {
@@ -45,7 +53,7 @@ type c18Merge struct {
 
 func init() {
 	register(&Prop{ID: "C18", Run: c18Run,
-		Rule: "histories of AddDocument / AddUnnamedDocument / AddDocumentFromReader / AddDocumentFromFile (<= 30 adds quick, <= 200 thorough) over a name pool of 5 (so re-adds occur), tag pool {t1,t2,t3,*,\"\"}, options none / WithTags / MergeTags / MustCreate (WithTags combined with a policy as the API is used), malformed reader text and missing files; two in five re-adds of a registered name carry content EQUAL to the stored one (the same reader / file text loaded again, an equal document built separately, a Clone() of the served document), half of them with no option at all, the others with MergeTags, MustCreate or generated options; after every add: TaggedSubset for 4 tag sets, AsOne, NamedDocument for every pool name and an unknown one. Every document carries a unique id so a stale document is visible; for equal content the served INSTANCE is compared by identity with the one handed to the registering call (after every step, for every registered name). Kind `combo` (model comparison and no-panic only) also mixes MergeTags+MustCreate on one call and explicit names of the form default__N. Kind `mergefiles` runs the pipeline template function mergeFiles over generated files. A history is non-trivial when it re-adds at least one name; distinct = distinct canonical case JSON.",
+		Rule: "histories of AddDocument / AddUnnamedDocument / AddDocumentFromReader / AddDocumentFromFile (<= 30 adds quick, <= 200 thorough) over a name pool of 5 (so re-adds occur), tag pool {t1,t2,t3,*,\"\"}, options none / WithTags / MergeTags / MustCreate (WithTags combined with a policy as the API is used), malformed reader text and missing files; two in five re-adds of a registered name carry content EQUAL to the stored one (the same reader / file text loaded again, an equal document built separately, a Clone() of the served document), half of them with no option at all, the others with MergeTags, MustCreate or generated options; after every add: TaggedSubset for 4 tag sets, AsOne, NamedDocument for every pool name and an unknown one. Every document carries a unique id so a stale document is visible; for equal content the served INSTANCE is compared by identity with the one handed to the registering call (after every step, for every registered name). Kind `combo` (model comparison and no-panic only) also mixes MergeTags+MustCreate on one call and explicit names of the form default__N. Kind `mergefiles` runs the pipeline template function mergeFiles over generated files. One add in eight registers the very INSTANCE already served under some name (another name or its own); one reader add in seven reads a well-formed text through a reader that reports an I/O error part-way (bad input: an error, nothing registered); every TaggedSubset query is asked twice and with its tags reversed. Kind `bigdocs` (direct predicates only): one document whose YAML / JSON text has an exact size just under / at / just over 512 B, 4 KiB, 64 KiB, 1 MiB (bulk: one long string, many keys, a long list; multi-byte characters across the threshold offset), registered through AddDocumentFromReader (whole / chunked / data+EOF reader, after readers failing part-way), AddDocumentFromFile and AddDocument(FromMap) between two small documents: every view serves the generated document under all three names and the three are Equal. A history is non-trivial when it re-adds at least one name; distinct = distinct canonical case JSON.",
 		Assumptions: []string{
 			"documents are non-nil containers with path-safe keys (no key ends in an index group)",
 			"the YAML/JSON decoding of reader/file documents is C01's concern: the expected document is what dom.Builder().FromReader yields on the same text",
@@ -162,6 +170,9 @@ func c18GenCase(r *rand.Rand, n int, combo bool) c18Case {
 			op.Enc = pick(r, []string{"yaml", "json"})
 			if r.Intn(6) == 0 {
 				op.Doc = nil
+			} else if r.Intn(7) == 0 {
+				at := pick(r, []int{0, 0, 1, 500, 999, r.Intn(1000)})
+				op.FailAt = &at
 			}
 		default:
 			op.K = "file"
@@ -193,7 +204,25 @@ func c18GenCase(r *rand.Rand, n int, combo bool) c18Case {
 				op.Opts = []c18Opt{{K: "must"}}
 			}
 		}
-		if op.K != "unnamed" && (op.Doc != nil || op.K == "add") {
+		if op.K != "reader" || op.Doc == nil {
+			op.FailAt = nil
+		}
+		if op.K == "add" && !op.Clone && len(stored) > 0 && r.Intn(8) == 0 {
+			// the instance registered under some name (often another one) is added: one object, two registrations
+			ks := sortedKeys(stored)
+			op.Same = pick(r, ks)
+			if r.Intn(3) == 0 {
+				op.Same = key
+			}
+			if st, ok := stored[op.Same]; ok && st.doc != nil {
+				op.Doc = deepCopyW(st.doc)
+			} else {
+				op.Same = ""
+			}
+		}
+		if op.FailAt != nil {
+			// nothing is registered by a failing reader
+		} else if op.K != "unnamed" && (op.Doc != nil || op.K == "add") {
 			pol := ""
 			for _, o := range op.Opts {
 				if o.K != "tags" {
@@ -240,6 +269,7 @@ func c18Run(c *Ctx) {
 			c.Do("history", c18GenCase(r, 100+r.Intn(101), false))
 		}
 	}
+	c18BigCases(c)
 	g := stdGen()
 	g.MaxDepth, g.MaxWidth, g.ListMax = 3, 3, 2
 	g.Types = []string{"int", "string", "bool"}
@@ -253,6 +283,45 @@ func c18Run(c *Ctx) {
 		}
 		c.Do("mergefiles", c18Merge{Docs: docs})
 	}
+}
+
+// c18FailingReader hands out `left` bytes of the text, then reports an I/O error (never io.EOF).
+type c18FailingReader struct {
+	text string
+	pos  int
+	left int
+}
+
+func (r *c18FailingReader) Read(p []byte) (int, error) {
+	if r.left <= 0 || r.pos >= len(r.text) {
+		return 0, errors.New("injected read failure")
+	}
+	n := len(p)
+	if n > r.left {
+		n = r.left
+	}
+	if n > len(r.text)-r.pos {
+		n = len(r.text) - r.pos
+	}
+	copy(p, r.text[r.pos:r.pos+n])
+	r.pos += n
+	r.left -= n
+	return n, nil
+}
+
+// c18Permille: p permille of n, at most n-1 (a failing reader never hands out the whole text).
+func c18Permille(p, n int) int {
+	if p < 0 {
+		p = 0
+	}
+	at := int(int64(n) * int64(p) / 1000)
+	if at >= n {
+		at = n - 1
+	}
+	if at < 0 {
+		at = 0
+	}
+	return at
 }
 
 // c18Text serialises a wire document with the named encoder (nil: a malformed text).
@@ -367,6 +436,10 @@ func c18Eval(c *Ctx, kind string, raw []byte) {
 		c18EvalMerge(c, raw)
 		return
 	}
+	if kind == "bigdocs" {
+		c18EvalBig(c, raw)
+		return
+	}
 	var cs c18Case
 	if err := json.Unmarshal(raw, &cs); err != nil {
 		panic(err)
@@ -420,6 +493,10 @@ func c18Eval(c *Ctx, kind string, raw []byte) {
 				docW = nodeWire(cb)
 			}
 		}
+		failing := op.K == "reader" && op.Doc != nil && op.FailAt != nil
+		if failing {
+			docW = nil // bad input: nothing is registered
+		}
 		name := op.Name
 		if op.K == "file" {
 			name = filepath.Join(dir, op.Name)
@@ -439,6 +516,13 @@ func c18Eval(c *Ctx, kind string, raw []byte) {
 			}
 			if op.K == "add" || op.K == "unnamed" {
 				added = wireContainer(op.Doc)
+				if op.K == "add" && op.Same != "" {
+					if same := ds.NamedDocument(unstrip(op.Same)); same != nil {
+						added = same
+						docW = nodeWire(same)
+						c.Dist("add:same-instance-as-registered")
+					}
+				}
 				if op.K == "add" && op.Clone && servedBefore != nil {
 					if cl, ok := servedBefore.Clone().(dom.ContainerBuilder); ok {
 						added = cl
@@ -453,7 +537,11 @@ func c18Eval(c *Ctx, kind string, raw []byte) {
 			case "unnamed":
 				err = ds.AddUnnamedDocument(added, c18ApiOpts(op.Opts)...)
 			case "reader":
-				err = ds.AddDocumentFromReader(name, strings.NewReader(text), c18Dec(op.Enc), c18ApiOpts(op.Opts)...)
+				var rd io.Reader = strings.NewReader(text)
+				if failing {
+					rd = &c18FailingReader{text: text, left: c18Permille(*op.FailAt, len(text))}
+				}
+				err = ds.AddDocumentFromReader(name, rd, c18Dec(op.Enc), c18ApiOpts(op.Opts)...)
 			case "file":
 				err = ds.AddDocumentFromFile(name, c18Dec(op.Enc), c18ApiOpts(op.Opts)...)
 			}
@@ -502,9 +590,12 @@ func c18Eval(c *Ctx, kind string, raw []byte) {
 				generated = append(generated, refName)
 			}
 		}
-		if (op.K == "reader" || op.K == "file") && op.Doc == nil {
+		if ((op.K == "reader" || op.K == "file") && op.Doc == nil) || failing {
 			expectErr = true
 			c.Dist("input-error")
+			if failing {
+				c.Dist("input-error:reader-fails-part-way")
+			}
 		} else if refName != "" {
 			if old, exists := ref.docs[refName]; exists {
 				readds++
@@ -585,6 +676,14 @@ func c18Eval(c *Ctx, kind string, raw []byte) {
 			if !direct {
 				continue
 			}
+			// the same query again (and with the tags in reverse order) selects the same
+			rev := append([]string{}, ts...)
+			for a, b := 0, len(rev)-1; a < b; a, b = a+1, b-1 {
+				rev[a], rev[b] = rev[b], rev[a]
+			}
+			again, _ := c18ObserveOverlay(func() dom.OverlayDocument { return ds.TaggedSubset(ts...) }, strip)
+			back, _ := c18ObserveOverlay(func() dom.OverlayDocument { return ds.TaggedSubset(rev...) }, strip)
+			c.Direct("TaggedSubset-asked-twice-selects-the-same", canon(again) == canon(ov) && canon(back) == canon(ov), map[string]any{"step": i, "tags": ts, "first": ov, "again": again, "tags-reversed": back})
 			want := ref.expectNames(ts)
 			c.Direct("subset-names-are-exactly-the-tagged-in-insertion-order", canon(ov.Names) == canon(want), map[string]any{"step": i, "tags": ts, "got": ov.Names, "want": want})
 			for _, n := range ov.Names {
